@@ -49,26 +49,37 @@ def compute_conv_grad_sample(
             ret[layer.bias] = torch.zeros_like(layer.bias).unsqueeze(0)
         return ret
 
+    padding = layer.padding
+    if layer.padding_mode != "zeros":
+        # circular / reflect / replicate: the layer pads its input itself and
+        # convolves the padded input without further padding
+        activations = F.pad(
+            activations,
+            layer._reversed_padding_repeated_twice,
+            mode=layer.padding_mode,
+        )
+        padding = (0,) * len(layer.kernel_size)
+
     # get activations and backprops in shape depending on the Conv layer
     if type(layer) is nn.Conv2d:
         activations = unfold2d(
             activations,
             kernel_size=layer.kernel_size,
-            padding=layer.padding,
+            padding=padding,
             stride=layer.stride,
             dilation=layer.dilation,
         )
     elif type(layer) is nn.Conv1d:
         activations = activations.unsqueeze(-2)  # add the H dimension
         # set arguments to tuples with appropriate second element
-        if layer.padding == "same":
+        if padding == "same":
             total_pad = layer.dilation[0] * (layer.kernel_size[0] - 1)
             left_pad = math.floor(total_pad / 2)
             right_pad = total_pad - left_pad
-        elif layer.padding == "valid":
+        elif padding == "valid":
             left_pad, right_pad = 0, 0
         else:
-            left_pad, right_pad = layer.padding[0], layer.padding[0]
+            left_pad, right_pad = padding[0], padding[0]
         activations = F.pad(activations, (left_pad, right_pad))
         activations = torch.nn.functional.unfold(
             activations,
@@ -80,7 +91,7 @@ def compute_conv_grad_sample(
         activations = unfold3d(
             activations,
             kernel_size=layer.kernel_size,
-            padding=layer.padding,
+            padding=padding,
             stride=layer.stride,
             dilation=layer.dilation,
         )
